@@ -55,20 +55,20 @@ type Run struct {
 	Seed  int64
 	Level string
 
-	mu          sync.Mutex
-	start       time.Time
-	cov         map[string]any
-	assumptions []string
-	viol        []Violation
-	violCount   map[string]int
-	distinct    map[[16]byte]struct{}
-	evals       int64
+	mu           sync.Mutex
+	start        time.Time
+	cov          map[string]any
+	assumptions  []string
+	viol         []Violation
+	violCount    map[string]int
+	distinct     map[[16]byte]struct{}
+	evals        int64
 	bulkDistinct int64
-	samples     []any
-	maxSamples  int
-	exhaustive  bool
-	notes       []string
-	deadline    time.Time
+	samples      []any
+	maxSamples   int
+	exhaustive   bool
+	notes        []string
+	deadline     time.Time
 }
 
 // New parses the common flags (-tier) and environment (VERIF_TIER, VERIF_SEED).
